@@ -760,21 +760,38 @@ func exec5(x in5) ([]int64, []int64) {
 	switch x.role {
 	case 0:
 		tc := &uthelper.TestCommonStruct{Name: "c11"}
-		total := int64(0)
+		// the node has exactly the cpu in use (a single job with running pods has
+		// share 1) - unless some share key is not a whole cpu: then the case is a
+		// NEAR-TIE one and the node has 10^7 milli-cpu, so that jobs holding k, k+7,
+		// k+14 milli-cpu have drf shares within 10^-6 of their neighbours
+		total, whole := int64(0), true
 		for _, k := range x.ks {
-			total += k.share / 1000
+			if k.share < 0 {
+				panic("harness: negative share key")
+			}
+			total += k.share
+			whole = whole && k.share%1000 == 0
 		}
 		if total == 0 {
-			total = 1
+			total = 1000
 		}
-		tc.Nodes = []*v1.Node{util.BuildNode("n1", api.BuildResourceList(strconv.FormatInt(total, 10), "1000Gi", []api.ScalarResource{{Name: "pods", Value: "1000"}}...), nil)}
+		if !whole {
+			total = 10000000
+		}
+		tc.Nodes = []*v1.Node{util.BuildNode("n1", api.BuildResourceList(fmt.Sprintf("%dm", total), "1000Gi", []api.ScalarResource{{Name: "pods", Value: "1000"}}...), nil)}
 		tc.Queues = []*schedulingv1beta1.Queue{util.BuildQueue("q1", 1, nil)}
 		seenPrio := map[int64]bool{}
 		for _, k := range x.ks {
-			if k.share%1000 != 0 || k.share < 0 {
-				panic("harness: share key must be a multiple of 1000 millicpu")
+			// the job's running pods hold k.share milli-cpu in total: whole cpus as
+			// 1-cpu pods, a remainder as one more pod
+			podCPU := []int64{}
+			for c := int64(0); c < k.share/1000; c++ {
+				podCPU = append(podCPU, 1000)
 			}
-			running := k.share / 1000
+			if k.share%1000 != 0 {
+				podCPU = append(podCPU, k.share%1000)
+			}
+			running := int64(len(podCPU))
 			minAvail := running
 			if !k.ready {
 				minAvail = running + 1
@@ -796,7 +813,7 @@ func exec5(x in5) ([]int64, []int64) {
 			tc.PodGroups = append(tc.PodGroups, pg)
 			for p := int64(0); p < running; p++ {
 				tc.Pods = append(tc.Pods, util.BuildPod("ns", fmt.Sprintf("%s-w-%d", pgName, p), "n1", v1.PodRunning,
-					api.BuildResourceList("1", "0"), pgName, nil, nil))
+					api.BuildResourceList(fmt.Sprintf("%dm", podCPU[p]), "0"), pgName, nil, nil))
 			}
 			// one pending pod so that every job has something left to schedule
 			tc.Pods = append(tc.Pods, util.BuildPod("ns", fmt.Sprintf("%s-w-%d", pgName, running), "", v1.PodPending,
@@ -1067,7 +1084,18 @@ func run8(in []int64) []int64 {
 	if len(out) != len(tasks) {
 		panic("the victims queue lost or duplicated a task")
 	}
-	return cat(tag(1), eList(out))
+	// the less function on every ordered pair of different victims, through the
+	// public API only: heap.Push of b then a calls less(a, b) once and puts a in
+	// front exactly when it answers true
+	pre := &api.TaskInfo{UID: "preemptor", Job: jobKey(x.pre)}
+	lm := matB(len(tasks), func(a, b int) bool {
+		if a == b {
+			return false
+		}
+		q2 := ssn.BuildVictimsPriorityQueue([]*api.TaskInfo{tasks[b], tasks[a]}, pre)
+		return q2.Pop().(*api.TaskInfo) == tasks[a]
+	})
+	return cat(tag(1), eList(out), tag(2), lm)
 }
 
 // ---------------------------------------------------------------- Run / Laws
@@ -1471,6 +1499,41 @@ func gen(rng *vh.Rng, n int, emit func(id string, sel int, in []int64, kind stri
 		in := cat([]int64{0}, encKItems(ks), encLayout(kinds, eZ))
 		emit(fmt.Sprintf("realcmp-job-%d", i), 5, in, "orders/shipped-plugins-jobs", len(ks) >= 3 && c1 >= 1, nil)
 	}
+	// near ties of the drf share: jobs holding k, k+7, k+14, (k+21) milli-cpu of a
+	// 10^7 milli-cpu node (shares 7*10^-7 apart), creation times / UIDs running the
+	// opposite way, everything else equal - an "equal within a tolerance" comparator
+	// is intransitive exactly here
+	for i := 0; i < nReal/2+2; i++ {
+		nj := vh.Pick(r, []int{3, 3, 4})
+		k0 := int64(r.Range(1, 9))
+		step := int64(vh.Pick(r, []int{7, 7, 7, 1, 9}))
+		ks := []kitem{}
+		allReady := r.Chance(1, 2)
+		for j := 0; j < nj; j++ {
+			k := kitem{item: item{ctime: int64(2 - j), uid: int64(40 - j)}, share: k0 + step*int64(j), ready: allReady}
+			if k.ctime < 0 {
+				k.ctime = 0
+			}
+			if r.Chance(1, 6) {
+				k.ctime = int64(r.Range(0, 2))
+			}
+			ks = append(ks, k)
+		}
+		if r.Chance(1, 2) { // push order is part of the pop-order observable
+			for a := len(ks) - 1; a > 0; a-- {
+				b := r.Intn(a + 1)
+				ks[a], ks[b] = ks[b], ks[a]
+			}
+		}
+		var kinds layout[int64]
+		if r.Chance(2, 3) {
+			kinds = layout[int64]{{{2, true, 3}}} // drf alone
+		} else {
+			kinds = genLayout(r, genShape(r), func(r *vh.Rng) int64 { return int64(vh.Pick(r, []int{3, 3, 3, 1, 2, 4})) })
+		}
+		in := cat([]int64{0}, encKItems(ks), encLayout(kinds, eZ))
+		emit(fmt.Sprintf("realcmp-neartie-%d", i), 5, in, "orders/shipped-plugins-jobs-drf-near-ties", true, nil)
+	}
 	for i := 0; i < n/6+2; i++ {
 		role := int64(vh.Pick(r, []int{2, 3}))
 		ks := genKs(role)
@@ -1511,12 +1574,23 @@ func gen(rng *vh.Rng, n int, emit func(id string, sel int, in []int64, kind stri
 		nt := r.Range(0, 6)
 		kind := vh.Pick(r, []int{0, 0, 1})
 		tits := genItems(r, nt, kind)
+		orphanBias := vh.Pick(r, []int{0, 1, 1, 2, 3, 4}) // 4: every victim is an orphan
 		in := []int64{int64(nt)}
 		for _, t := range tits {
 			in = append(in, t.ctime, t.uid)
 			in = append(in, eOptZ(t.pidx)...)
-			// job: mostly present, sometimes an orphan (index >= nj)
-			in = append(in, int64(r.Intn(nj+1)))
+			// job: mostly present; an index >= nj names a job that is not in
+			// ssn.Jobs (PodGroup deleted after the snapshot).  Up to three
+			// DIFFERENT missing jobs, so that orphan/orphan pairs of one missing
+			// job and of two missing jobs both occur
+			switch {
+			case orphanBias == 0:
+				in = append(in, int64(r.Intn(nj+1)))
+			case r.Chance(orphanBias, 4):
+				in = append(in, int64(nj+r.Intn(3)))
+			default:
+				in = append(in, int64(r.Intn(nj+3)))
+			}
 		}
 		in = append(in, int64(nj))
 		jits := genItems(r, nj, 1)
@@ -1527,7 +1601,7 @@ func gen(rng *vh.Rng, n int, emit func(id string, sel int, in []int64, kind stri
 		for _, q := range genItems(r, nq, 1) {
 			in = append(in, q.ctime, q.uid)
 		}
-		in = append(in, int64(r.Intn(nj+1))) // preemptor job, sometimes missing
+		in = append(in, int64(r.Intn(nj+2))) // preemptor job, sometimes missing
 		sh := genShape(r)
 		in = append(in, encLayout(genLayout(r, sh, genTable(nt)), eTable)...)
 		in = append(in, encLayout(genLayout(r, sh, genTable(nj)), eTable)...)
